@@ -13,6 +13,7 @@
 #include <string.h>
 #include <unistd.h>
 #include <sys/personality.h>
+#include <sys/prctl.h>
 #include <sys/wait.h>
 #include <sys/resource.h>
 
@@ -495,9 +496,7 @@ static Janet cfun_sim_stats(int32_t argc, Janet *argv) {
 }
 
 /* tagged payload bytes: byte i of stream w is a function of (w, i) */
-static uint8_t tagb(uint64_t w, uint64_t off) {
-    return (uint8_t)(sim_hash(0x7A6, w, off >> 3, 0) >> ((off & 7) * 8));
-}
+#define tagb sim_tagb
 static Janet cfun_sim_fill(int32_t argc, Janet *argv) {
     janet_fixarity(argc, 3);
     uint64_t w = (uint64_t) janet_getinteger64(argv, 0);
@@ -516,6 +515,19 @@ static Janet cfun_sim_match(int32_t argc, Janet *argv) {
     int32_t i = 0;
     while (i < v.len && v.bytes[i] == tagb(w, off + (uint64_t) i)) i++;
     return janet_wrap_integer(i);
+}
+/* (sim/locate w bytes lo hi) -> first offset in [lo,hi] at which `bytes` equals stream w, or -1 */
+static Janet cfun_sim_locate(int32_t argc, Janet *argv) {
+    janet_fixarity(argc, 4);
+    uint64_t w = (uint64_t) janet_getinteger64(argv, 0);
+    JanetByteView v = janet_getbytes(argv, 1);
+    int64_t lo = janet_getinteger64(argv, 2), hi = janet_getinteger64(argv, 3);
+    for (int64_t off = lo; off <= hi; off++) {
+        int32_t i = 0;
+        while (i < v.len && v.bytes[i] == tagb(w, (uint64_t) off + (uint64_t) i)) i++;
+        if (i == v.len) return janet_wrap_number((double) off);
+    }
+    return janet_wrap_integer(-1);
 }
 static Janet cfun_sim_hash(int32_t argc, Janet *argv) {
     janet_fixarity(argc, 1);
@@ -573,6 +585,7 @@ static const JanetReg sim_cfuns[] = {
     {"sim/fill", cfun_sim_fill, "(sim/fill w off n)"},
     {"sim/match", cfun_sim_match, "(sim/match w off bytes)"},
     {"sim/hash", cfun_sim_hash, "(sim/hash bytes)"},
+    {"sim/locate", cfun_sim_locate, "(sim/locate w bytes lo hi)"},
     {"sim/persist", cfun_sim_persist, "(sim/persist :key bytes)"},
     {"sim/restore", cfun_sim_restore, "(sim/restore :key)"},
     {NULL, NULL, NULL}
@@ -796,6 +809,7 @@ static void server(void) {
         __real_clock_gettime(CLOCK_MONOTONIC, &t0);
         pid_t pid = __real_fork();
         if (pid == 0) {
+            prctl(PR_SET_PDEATHSIG, SIGKILL);
             /* child: stdout/stderr of the plan go to <out>.log */
             char logp[1100];
             snprintf(logp, sizeof logp, "%s.log", out);
@@ -851,6 +865,7 @@ int main(int argc, char **argv) {
     setenv("TZ", "UTC", 1);
     setenv("LC_ALL", "C", 1);
     if (argc >= 2 && !strcmp(argv[1], "--server")) {
+        prctl(PR_SET_PDEATHSIG, SIGKILL);
         server();
         return 0;
     }
